@@ -14,7 +14,7 @@ THEOREMS = [("PdfV.Properties.C01", n) for n in
              "C01_parse_fuel_linear", "C01_parse_indirect_total", "C01_parse_seq_total", "C01_decoders_total", "C01_decode_hex_total",
              "C01_decode_85_total", "C01_rle_total", "C01_objstm_member_total", "C01_xref_stream_total", "C01_full"]]
 ANCHORS = ["lexer/", "parser/", "enc.rs"]
-MODES = ["lex", "strlex", "hexlex", "parse", "parse_seq", "parse_indirect", "hexdec", "a85dec", "rledec"]
+MODES = ["lex", "strlex", "hexlex", "parse", "parse_seq", "parse_indirect", "hexdec", "a85dec", "rledec", "unpredict"]
 MODEL_TIMEOUT = 30.0
 CASE_TIMEOUT = 120
 TRUSTED_BASE = ["coqc 8.16.1 kernel (front-end theorems, once listed in THEOREMS)",
@@ -304,8 +304,20 @@ def front_cases(rng, tier):
         yield Case("rledec", [d], tags=["front:rledec"], kind="malformed")
 
 
+def short_row_cases():
+    """decoded stream data under a predictor, cut at every position (mode and model of the Codec area: the tie of C01_decoders_total's
+    row loop to enc.rs: unpredict on exactly the inputs that matter for safety; the class of seeded/C01f)"""
+    import zlib
+    from oracle import codecs as C
+    for (p, c, cols, bpc, data) in C.short_row_sweep():
+        f = [str(x).encode() for x in (p, c, cols, bpc)]
+        yield Case("unpredict", f + [zlib.compress(data)], mfields=f + [data], kind="malformed", tags=["front:unpredict", "short-row"])
+
+
 def generate(rng, tier):
     for c in front_cases(rng, tier):
+        yield c
+    for c in short_row_cases():
         yield c
     for c in _walk_generate(rng, tier):
         yield c
